@@ -127,6 +127,9 @@ def gen_case(kind, profile, seed, tier='quick'):
         rng = random.Random('taskdrv/%s' % seed)
         k = rng.choice([1, 1, 2, 3, 5, 7, 60, 3600])
         ms = [[rng.choice([1, 2, 4, 5, 10]) * k, rng.choice([1, 2, 5]) * k] for _ in range(rng.randint(1, 3))]
+        if rng.random() < 0.25:
+            # speeds that are not whole numbers (legal): floor(work / speed) as the code writes it, int(work / speed)
+            ms = [[rng.choice([0.1, 0.2, 0.4, 2.5, 1, 5]), rng.choice([0.1, 0.4, 0.5, 1, 2])] for _ in ms]
         tasks = []
         for _ in range(rng.randint(2, 8)):
             m = rng.randrange(len(ms))
@@ -172,7 +175,7 @@ def gen_case(kind, profile, seed, tier='quick'):
                 # distribution and seed with another degree / probability (a parameter sweep), or anything
                 'prelude': [[rng.choice(['same', 'normal', 'poisson', 'uniform']), rng.choice(['LOW', 'MID', 'HIGH', 'NONE']),
                              rng.choice([0.0, 0.3, 1.0]), rng.choice(['same', 20, 0, 7])] for _ in range(rng.randint(0, 3))],
-                'fresh': rng.random() < 0.1}
+                'fresh': rng.random() < 0.1, 'np_seed': rng.random() < 0.25}
     raise ValueError(kind)
 
 
@@ -405,13 +408,16 @@ def exec_pause(case, d):
         # and the paused runs stop at completion
         sc = copy.deepcopy(sc)
         sc['faults'].pop('overrun', None)
-    ref = sut.run_scenario(sc, d, monitor='real', want_tables=True)
+    mon = 'real' if sc.get('monitor', 'real') == 'real' else 'light'
+    ref = sut.run_scenario(sc, d, monitor=mon, want_tables=True)
     out = _out(ref)
     viol = out['violations']
 
+    cur_plan = [None]
+
     def add(clause, msg, site=''):
         if not any(v['prop'] == 'C11' and v['clause'] == clause and v['site'] == site for v in viol):
-            viol.append(dict(prop='C11', clause=clause, site=site, msg=msg[:300], t=None, seq=None))
+            viol.append(dict(prop='C11', clause=clause, site=site, msg=msg[:300], t=None, seq=None, plan=cur_plan[0]))
     # refusals first (cheap, independent of T)
     _pause_refusals(sc, d, add, out)
     if ref.status != 'ok':
@@ -439,7 +445,8 @@ def exec_pause(case, d):
             plans.append(sorted(rng.sample(range(1, T), n)))
     out['probes']['pause_points'] = 0
     for plan in plans:
-        r = sut.run_scenario(sc, d, pauses=plan, monitor='real', want_tables=True)
+        cur_plan[0] = list(plan)
+        r = sut.run_scenario(sc, d, pauses=plan, monitor=mon, want_tables=True)
         out['nevents'] += r.nevents
         out['T'] += float(r.T or 0)
         out['faults']['F5'] = out['faults'].get('F5', 0) + len(plan)
@@ -449,6 +456,7 @@ def exec_pause(case, d):
             if not any(x['prop'] == v['prop'] and x['clause'] == v['clause'] and x['site'] == v['site'] for x in viol):
                 v = dict(v)
                 v['msg'] = 'pauses %s: %s' % (plan, v['msg'])
+                v['plan'] = list(plan)
                 viol.append(v)
         if r.status != 'ok':
             add('paused_run_fails', 'pauses %s: %s %s' % (plan, r.status, r.exc), site=tag)
@@ -490,6 +498,30 @@ def exec_pause(case, d):
                 out['probes']['pause_mid_task'] = out['probes'].get('pause_mid_task', 0) + 1
             if s.get('queue'):
                 out['probes']['pause_mid_workflow'] = out['probes'].get('pause_mid_workflow', 0) + 1
+    cur_plan[0] = None
+    # the clock may be run on past the end of the work: start(T) / start(k)+resume(T), then resume(T+x), must
+    # equal one uninterrupted start(runtime=T+x)
+    if T >= 1 and mon == 'real':
+        x = 1 + (case.get('split_seed', 0) % 3)
+        refb = sut.run_scenario(sc, d, monitor=mon, want_tables=True, until=T + x)
+        kk = max(1, T - (case.get('split_seed', 0) % 2) * (T // 2))
+        planb = [T] if kk >= T else [kk, T]
+        rb = sut.run_scenario(sc, d, pauses=planb, monitor=mon, want_tables=True, until=T + x)
+        out['nevents'] += refb.nevents + rb.nevents
+        out['faults']['F5:beyond_end'] = 1
+        if refb.status == 'ok' and rb.status == 'ok':
+            if float(rb.T) != float(refb.T):
+                add('length_differs', 'pauses %s then resume(%s): clock at %s, uninterrupted start(runtime=%s) at %s' % (
+                    planb, T + x, rb.T, T + x, refb.T), site='beyond_end')
+            for what, a_, b_ in (('per_step_table_differs', rb.sim.monitor.df, refb.sim.monitor.df),
+                                 ('task_table_differs', rb.tasks, refb.tasks),
+                                 ('event_log_differs', rb.sim.monitor.events.reset_index(drop=True),
+                                  refb.sim.monitor.events.reset_index(drop=True))):
+                xd = first_diff(a_, b_)
+                if xd:
+                    add(what, 'pauses %s then resume(%s) vs start(runtime=%s): %s' % (planb, T + x, T + x, xd), site='beyond_end')
+        elif refb.status == 'ok' and rb.status != 'ok':
+            add('paused_run_fails', 'pauses %s then resume(%s): %s %s' % (planb, T + x, rb.status, rb.exc), site='beyond_end')
     out['exhaustive'] = exhaustive
     return out
 
@@ -571,6 +603,29 @@ def exec_units(case, d):
             cold=(sim.buffer.cold[0].total_capacity, sim.buffer.cold[0].max_data_rate),
             arrays=sim.instrument.total_arrays, max_ingest=sim.instrument.max_ingest,
             pipes={n: p['ingest_demand'] for n, p in sim.instrument.pipelines.items()})
+    # the parser itself, asked twice (a Config object may be handed to several actors): same answers both times
+    try:
+        from topsim.core.config import Config as _Config
+        cfgk = _Config(sut.write_files(sc, d))
+        both = []
+        for _ in range(2):
+            ms, sysbw = cfgk.parse_cluster_config()
+            arrays, pipes, obs_, mx = cfgk.parse_instrument_config('telescope')
+            hot_, cold_ = cfgk.parse_buffer_config()
+            both.append(dict(mach={m.id: (m.cpu, m.bandwidth) for m in ms}, sysbw=sysbw,
+                             obs={o.name: (o.est, o.duration, o.ingest_data_rate, o.demand) for o in obs_},
+                             hot=(hot_[0].total_capacity, hot_[0].max_ingest_data_rate),
+                             cold=(cold_[0].total_capacity, cold_[0].max_data_rate), arrays=arrays, max_ingest=mx))
+        if both[0] != both[1]:
+            bad = [k_ for k_ in both[0] if both[0][k_] != both[1][k_]]
+            add('parse_not_repeatable', 'second parse of the same Config differs in %s: %s vs %s' % (
+                bad, {k_: both[0][k_] for k_ in bad}, {k_: both[1][k_] for k_ in bad}), site=bad[0])
+        ref = {k_: parsed['k'][k_] for k_ in ('mach', 'sysbw', 'obs', 'hot', 'cold', 'arrays', 'max_ingest')}
+        if both[0] != ref:
+            bad = [k_ for k_ in ref if both[0][k_] != ref[k_]]
+            add('direct_parse_differs_from_simulation', 'Config.parse_* vs what the Simulation built: %s' % bad, site=bad[0])
+    except Exception as e:
+        add('parse_raises', '%s: %s' % (type(e).__name__, e))
     pk, p1 = parsed['k'], parsed['1']
     # all generated quantities are whole multiples of the unit, so every conversion is exact in floating point
     close = lambda a, b: a == b      # noqa: E731
@@ -682,8 +737,12 @@ def exec_units(case, d):
 def _dm_eval(case):
     from topsim.core.delay import DelayModel
     outs = []
+    seed = case['seed']
+    if case.get('np_seed'):
+        import numpy
+        seed = numpy.int64(seed)
     for rt in case['runtimes']:
-        dm = DelayModel(case['prob'], case['dist'], DelayModel.DelayDegree[case['degree']], case['seed'])
+        dm = DelayModel(case['prob'], case['dist'], DelayModel.DelayDegree[case['degree']], seed)
         try:
             v = dm.generate_delay(rt)
             outs.append([rt, float(v)])
@@ -726,10 +785,15 @@ def exec_delaymodel(case, d):
     # copies (what the planner hands to each task) behave like the original
     dm = DelayModel(case['prob'], case['dist'], DelayModel.DelayDegree[case['degree']], case['seed'])
     dc = copy.copy(dm)
-    for rt in case['runtimes'][:4]:
+    for rt in case['runtimes'][:6]:
         try:
-            if dm.generate_delay(rt) != dc.generate_delay(rt):
+            x1 = dm.generate_delay(rt)
+            if x1 != dc.generate_delay(rt):
                 add('copy_differs', 'runtime %s' % rt, site=case['dist'])
+            # the same object asked again (every task of a plan asks its own copy once; a user may ask twice)
+            if dm.generate_delay(rt) != x1 or dm.generate_delay(rt) != x1:
+                add('not_deterministic', 'runtime %s: the same model object answers differently when asked again' % rt,
+                    site=case['dist'] + ':same_object')
         except Exception:
             pass
     nev = len(a)
@@ -899,11 +963,15 @@ def _sc_candidates(sc):
         yield c
 
 
-def shrink_candidates(case):
+def shrink_candidates(case, hint=None):
     k = case['kind']
     if k in ('sim', 'repro', 'pause', 'units', 'plandrv'):
-        if k == 'pause' and case.get('ks') is None:
-            pass
+        if k == 'pause' and hint and hint.get('plan') and (case.get('ks') is None or len(case.get('ks') or []) + len(case.get('splits') or []) > 1):
+            # only the pause plan that failed, instead of every pause point
+            pl = list(hint['plan'])
+            c = dict(case)
+            c.update(ks=pl if len(pl) == 1 else [], splits=[] if len(pl) == 1 else [pl], nsplits=0, ks_frac=None)
+            yield c
         for sc in _sc_candidates(case['sc']):
             c = dict(case)
             c['sc'] = sc
